@@ -306,6 +306,9 @@ def state_norm(c):
         "sg_other": [str(getattr(sg, k, None)) for k in ("symbol", "full_symbol", "centering", "schoenflies", "centrosymmetric")],
         "symops": [int(s.integer_code) for s in sg.symmetry_operations],
         "symop_arrays": [[_arr(s.rotation), _arr(s.translation)] for s in sg.symmetry_operations],
+        # an operation read from a file keeps the text it was written with
+        # (exports print it): part of what the space group *is* for this purpose
+        "symop_text": [str(s) for s in sg.symmetry_operations],
         "numbers": _arr(au.atomic_numbers),
         "elements": [int(e.atomic_number) for e in au.elements],
         "positions": _arr(au.positions),
